@@ -212,6 +212,7 @@ func (p *Path) deadlock() {
 			msg += fmt.Sprintf(" T%d(%s)", t.id, t.desc)
 		}
 	}
+	p.flushAsserts()
 	p.logf("DEADLOCK %s", msg)
 	p.fail("deadlock", "deadlock", msg)
 }
